@@ -17,7 +17,8 @@
 From Coq Require Import List ZArith QArith Bool Lia.
 Import ListNotations.
 From QV Require Import Model.C10_trees Model.C10 Proofs.C10_trees Proofs.C10
-  Proofs.C10_tab_small Proofs.C10_tab_vern7 Proofs.C10_tab_vern9.
+  Proofs.C10_tab_small Proofs.C10_tab_vern7 Proofs.C10_tab_vern9
+  Gen.C10_tab_euler Gen.C10_tab_rk4 Gen.C10_tab_vern7 Gen.C10_tab_vern9.
 
 (* ------------------------------------------------------------ kernel --- *)
 
@@ -224,14 +225,9 @@ Theorem C10_tableaux_wellformed :
   Nat.eqb (length v9_bi) (length v9_c) &&
   forallb (fun r => Nat.eqb (length r) 9) v9_bi = true.
 Proof.
-  repeat split.
-  - exact small_dyadic.
-  - exact vern7_dyadic.
-  - exact vern9_dyadic.
-  - exact small_struct.
-  - exact small_orders.
-  - exact vern7_struct.
-  - exact vern9_struct.
+  split; [exact small_dyadic|]. split; [exact vern7_dyadic|]. split; [exact vern9_dyadic|].
+  split; [exact small_struct|]. split; [exact small_orders|]. split; [exact vern7_struct|].
+  exact vern9_struct.
 Qed.
 Print Assumptions C10_tableaux_wellformed.
 
@@ -280,11 +276,8 @@ Example C10_orders_are_sharp :
   taylor_close 40 done 8 (stab_poly v7_tb done) = false /\
   taylor_close 40 done 10 (stab_poly v9_tb done) = false.
 Proof.
-  repeat split.
-  - exact euler_not_order2.
-  - exact rk4_not_order5.
-  - exact vern7_taylor_sharp.
-  - exact vern9_taylor_sharp.
+  split; [exact euler_not_order2|]. split; [exact rk4_not_order5|].
+  split; [exact vern7_taylor_sharp|exact vern9_taylor_sharp].
 Qed.
 
 (* local exactness for y' = L y: the polynomial of
@@ -305,15 +298,9 @@ Theorem C10_taylor_coefficients :
           [(1, 1); (1, 2); (3, 2); (1, 0)]%Z = true /\
   theta1_ok 36 v7_tb = true /\ theta1_ok 36 v9_tb = true.
 Proof.
-  repeat split.
-  - exact euler_taylor.
-  - exact rk4_taylor.
-  - exact vern7_taylor.
-  - exact vern9_taylor.
-  - exact vern7_dense_taylor.
-  - exact vern9_dense_taylor.
-  - exact vern7_theta1.
-  - exact vern9_theta1.
+  split; [exact euler_taylor|]. split; [exact rk4_taylor|]. split; [exact vern7_taylor|].
+  split; [exact vern9_taylor|]. split; [exact vern7_dense_taylor|].
+  split; [exact vern9_dense_taylor|]. split; [exact vern7_theta1|exact vern9_theta1].
 Qed.
 Print Assumptions C10_taylor_coefficients.
 
